@@ -321,7 +321,8 @@ def run_harness(exe, cases_text, timeout=900, env_extra=None, args=()):
     env.update(HARNESS_ENV)
     if env_extra:
         env.update(env_extra)
-    rc, so, se, dt = run([exe] + list(args), input=cases_text, timeout=timeout, env=env)
+    # harnesses that need scratch files create them below their own build directory
+    rc, so, se, dt = run([exe] + list(args), input=cases_text, timeout=timeout, env=env, cwd=os.path.dirname(exe))
     return rc, so, se
 
 
